@@ -1,6 +1,7 @@
 //! The ops of PROTOCOL.md except RESP (see dynval.rs).
 
 use std::collections::{HashMap, VecDeque};
+#[cfg(feature = "macro_src")]
 use std::rc::Rc;
 
 use microscpi::parser::{self, ParseError};
@@ -8,9 +9,11 @@ use microscpi::{Adapter, Error, ErrorQueue, Node, StaticErrorQueue, Value};
 
 use crate::alloccount::Region;
 use crate::gen::with_iface;
+#[cfg(feature = "macro_src")]
 use crate::macro_src;
 use crate::support::{block_on, fmt_err, hex, leak_str, pend, std_error, unhex, TVal, TestIface, STD_ERRORS};
 use crate::writers::TestWriter;
+#[cfg(feature = "macro_src")]
 use crate::CommandDefinition;
 
 // ---------------------------------------------------------------------------
@@ -513,6 +516,7 @@ pub fn op_queue(cap: &str, ops: &str) -> String {
 // ---------------------------------------------------------------------------
 // MACRO
 
+#[cfg(feature = "macro_src")]
 fn collect_macro_nodes(
     tree: &macro_src::tree::Tree, id: usize, keys: &mut Vec<String>, out: &mut Vec<(String, String)>,
 ) {
@@ -537,6 +541,7 @@ fn collect_macro_nodes(
     }
 }
 
+#[cfg(feature = "macro_src")]
 pub fn op_macro(decls: &str) -> String {
     use macro_src::command::Command;
     use macro_src::tree::{Error as TreeError, Tree};
